@@ -7,6 +7,8 @@ package main
 
 import (
 	"context"
+	"crypto/ed25519"
+	"crypto/sha256"
 	"encoding/json"
 	"fmt"
 	"sort"
@@ -27,6 +29,7 @@ type Msg struct {
 	Vers   string `json:"vers,omitempty"`
 	Room   string `json:"room,omitempty"`
 	Eid    string `json:"eid,omitempty"`
+	Proom  string `json:"proom,omitempty"`
 	Ev     *AbsEv `json:"ev,omitempty"`
 	// mjresp
 	Res  string `json:"res,omitempty"`
@@ -322,6 +325,7 @@ func (w *world) callInvite(c inviteCall) outcome {
 		MembershipQuerier: membershipQuerier{w.sc.Mem},
 		StateQuerier:      stateQuerier{w},
 		UserIDQuerier:     userIDQuerier(w.sc.UQ),
+		StrippedState:     w.strippedState(),
 	}
 	out, err := gmsl.HandleInvite(context.Background(), in)
 	if err != nil {
@@ -332,6 +336,74 @@ func (w *world) callInvite(c inviteCall) outcome {
 	}
 	o := outcome{Res: "ok"}
 	w.judgeReturned(&o, ev.JSON(), out.JSON())
+	o.Extra = map[string]interface{}{"returned": json.RawMessage(out.JSON())}
+	return o
+}
+
+// strippedState is the invite_room_state of the request ("given": what an inviting server attaches).
+func (w *world) strippedState() []gmsl.InviteStrippedState {
+	if w.sc.Stripped != "given" {
+		return nil
+	}
+	out := []gmsl.InviteStrippedState{gmsl.NewInviteStrippedState(w.create)}
+	if w.jr != nil {
+		out = append(out, gmsl.NewInviteStrippedState(w.jr))
+	}
+	return out
+}
+
+// callInviteV3: the v3 endpoint of pseudo-ID rooms.  The local server completes the template with the invited
+// user's room key and signs it with that key; it shares the room / membership checks of HandleInvite.
+func (w *world) callInviteV3(q *Msg) outcome {
+	rv := w.ver
+	if w.sc.RV != "known" {
+		rv = "c15.unknown.version"
+	}
+	R := servers["R"]
+	seed := sha256.Sum256([]byte("c15-roomkey-invitee"))
+	userKey := ed25519.NewKeyFromSeed(seed[:])
+	invitedSender := spec.SenderIDFromPseudoIDKey(userKey)
+	seed2 := sha256.Sum256([]byte("c15-roomkey-inviter"))
+	inviter := spec.SenderIDFromPseudoIDKey(ed25519.NewKeyFromSeed(seed2[:]))
+	proto := gmsl.ProtoEvent{SenderID: string(inviter), RoomID: w.roomID(q.Proom), Type: spec.MRoomMember, StateKey: strp(""),
+		PrevEvents: []string{w.last}, AuthEvents: w.authFor(w.create, w.pl, w.jr), Depth: w.depth + 1, Content: []byte(`{"membership":"invite"}`)}
+	in := gmsl.HandleInviteV3Input{
+		HandleInviteInput: gmsl.HandleInviteInput{
+			RoomID:            mustRoomID(w.roomID(q.Room)),
+			RoomVersion:       rv,
+			InvitedUser:       mustUserID(userInvitee),
+			InvitedSenderID:   invitedSender,
+			KeyID:             R.keyID,
+			PrivateKey:        R.priv,
+			Verifier:          keyRing(),
+			RoomQuerier:       roomQuerier{w.sc.Known},
+			MembershipQuerier: membershipQuerier{w.sc.Mem},
+			StateQuerier:      stateQuerier{w},
+			UserIDQuerier:     userIDQuerier(w.sc.UQ),
+			StrippedState:     w.strippedState(),
+		},
+		InviteProtoEvent: proto,
+		GetOrCreateSenderID: func(ctx context.Context, userID spec.UserID, roomID spec.RoomID, roomVersion string) (spec.SenderID, ed25519.PrivateKey, error) {
+			return invitedSender, userKey, nil
+		},
+	}
+	out, err := gmsl.HandleInviteV3(context.Background(), in)
+	if err != nil {
+		return outcome{Res: "refused", Code: errClass(err), Err: err.Error()}
+	}
+	if out == nil {
+		return outcome{Res: "refused", Code: "nil", Err: "nil event without error"}
+	}
+	o := outcome{Res: "ok", RSig: true, Same: true}
+	// the completed event is the template for the invited user's room key, signed with that key
+	m, _ := out.Membership()
+	switch {
+	case out.Type() != spec.MRoomMember || m != spec.Invite || !out.StateKeyEquals(string(invitedSender)) ||
+		out.RoomID().String() != proto.RoomID || string(out.SenderID()) != proto.SenderID:
+		o.Same, o.Note = false, "the returned event is not the template completed for the invited user"
+	case !validSigBy(w.impl, out.JSON(), &server{name: spec.ServerName(invitedSender), keyID: "ed25519:1", pub: userKey.Public().(ed25519.PublicKey)}):
+		o.RSig, o.Note = false, "the returned event carries no valid signature of the invited user's room key"
+	}
 	o.Extra = map[string]interface{}{"returned": json.RawMessage(out.JSON())}
 	return o
 }
@@ -390,7 +462,7 @@ func compareStep(h *Hist, o outcome) (string, string) {
 		if got != want {
 			return fmt.Sprintf("%s/template/shape", h.A), fmt.Sprintf("%s: template %+v, expected %+v", h.A, got, want)
 		}
-	case "SendJoinResp", "InviteResp":
+	case "SendJoinResp", "InviteResp", "InviteV3Resp":
 		if !o.RSig {
 			return h.A + "/returned/no-valid-local-signature", h.A + ": " + o.Note
 		}
@@ -431,6 +503,9 @@ func replayProduct(raw json.RawMessage) hx.Result {
 		case "InviteResp":
 			w := newWorld(r.Sc, userInvitee)
 			o = w.callInvite(w.concreteInvite(h.Req))
+		case "InviteV3Resp":
+			w := newWorld(r.Sc, userInvitee)
+			o = w.callInviteV3(h.Req)
 		default:
 			panic("c15: unknown handler " + h.A)
 		}
